@@ -15,6 +15,22 @@
 //	          {type 0, 2}; DialRCON against a scripted TCP server answering the login the same way
 //	advclient login / command frames of the wrong type sent to the real server side
 //
+// Added by the white-box audit (see ext.go for the login families):
+//
+//	frame     every payload length 0..limit+1 (not only the boundary lengths), a white-space payload kind, and
+//	          reader devices: the frame's last bytes arriving together with io.EOF, a reader answering (0, nil)
+//	          every other call; concat and the two-step scripts run under the same devices
+//	concat    every payload handed out is compared again after the later frames were read (script: commands and
+//	          responses likewise)
+//	login     a 21-word password alphabet (line ends, blanks, suffix, invalid UTF-8, NUL runs, ...), all ordered
+//	          pairs in memory and over TCP; long passwords of every length 1..limit that are equal / differ in one
+//	          byte (first, middle, last) / lack the last byte, on either side; login histories of <= 4 attempts on
+//	          one connection; session histories of <= 3 sessions on one listener
+//	script    "verbatim" menu of 25 texts (blanks, line ends, leading slash, case, NUL, invalid UTF-8, ...): every
+//	          ordered pair as a two-step script, each text over TCP; request-id histories (scripted login under one
+//	          id, then each command under an id from a 4-id menu)
+//	adversary three more foreign-id kinds (id-1, equal in the low 16 bits, sign flipped)
+//
 // The in-memory connection never blocks: a Read on an empty stream returns io.EOF, so a peer that waits for
 // bytes which were never written shows up as a deterministic error, not as a hang. TCP sessions carry a 20 s
 // I/O deadline whose only purpose is to turn a hang into a harness error (exit 2), never into a verdict.
@@ -59,6 +75,9 @@ type memConn struct {
 	out   *stream // bytes the owner of this end writes
 	chunk int     // >0: at most chunk bytes per Read
 	eof   bool    // the Read that hands out the last buffered byte returns (n>0, io.EOF), as io.Reader permits
+	// stutter: every other Read returns (0, nil) without consuming anything, which io.Reader permits ("nothing happened")
+	stutter bool
+	tick    int
 }
 
 func (m *memConn) Read(p []byte) (int, error) {
@@ -70,6 +89,12 @@ func (m *memConn) Read(p []byte) (int, error) {
 	rest := len(m.in.buf) - m.in.pos
 	if rest <= 0 {
 		return 0, io.EOF
+	}
+	if m.stutter {
+		m.tick++
+		if m.tick%2 == 1 {
+			return 0, nil
+		}
 	}
 	n := len(p)
 	if n > rest {
@@ -155,6 +180,15 @@ func payload(kind string, n int) []byte {
 		for i := range b {
 			b[i] = pat[i%len(pat)]
 		}
+	case "space": // white space at both ends (and nothing else below 5 bytes): what a trimming reader would eat
+		pat := []byte{' ', '\n', '\t', '\r'}
+		for i := range b {
+			if i < 2 || i >= n-2 {
+				b[i] = pat[i%len(pat)]
+			} else {
+				b[i] = '/' + byte(i%11)
+			}
+		}
 	default:
 		engine.HarnessError("unknown payload kind %q", kind)
 	}
@@ -194,11 +228,37 @@ func idShape(id int32) string {
 	return "idPos"
 }
 
-var passwords = []string{"", "a", "A", "ab", "a\x00", strings.Repeat("p", refrcon.MaxPayload)}
-var pwNames = []string{"empty", "a", "A", "ab", "a-nul", "limit"}
+// The first six passwords are the original alphabet (equal / prefix / case / empty / NUL-padded / limit-sized); the
+// rest are one representative per character class a "tolerant" comparison would fold away: line ends, surrounding
+// white space (ASCII and U+00A0), a proper suffix, invalid UTF-8 against other invalid UTF-8 and against U+FFFD,
+// several trailing NULs, a lone NUL, case differing past the first byte, a precomposed against a decomposed letter.
+var passwords = []string{"", "a", "A", "ab", "a\x00", strings.Repeat("p", refrcon.MaxPayload),
+	"a\n", "a\r\n", " a", "a ", "\ta", "b", "\xff", "\xfe", "\ufffd", "a\x00\x00", "\x00", "aB", "\u00e9", "e\u0301", "a\u00a0"}
+var pwNames = []string{"empty", "a", "A", "ab", "a-nul", "limit",
+	"a-lf", "a-crlf", "sp-a", "a-sp", "tab-a", "b", "xff", "xfe", "ufffd", "a-nul-nul", "nul", "aB", "e-acute", "e-combining-acute", "a-nbsp"}
 
-var commands = []string{"", "x", "list all", string(payload("ascii", refrcon.MaxPayload))}
-var responses = []string{"", "ok", "with\x00nul\xff", string(payload("nonutf8", refrcon.MaxPayload))}
+// histCmds commands and histResps responses form the alphabet of the exhaustive script histories. The texts after
+// them (shared by both lists) are the character-class menu of the "verbatim" family: each is one shape a server
+// front-end might be tempted to normalise (surrounding blanks, line ends, the chat-style leading slash, letter
+// case, runs of blanks, NULs, invalid UTF-8, formatting codes, BOM, quotes, backslashes).
+const histCmds, histResps = 4, 4
+
+var texts = []string{" x", "x ", " x ", "x\n", "x\r\n", "\tx\t", "\n", " ", "/list", "//", "/", "LIST All", "say  two  spaces",
+	"x\x00", "\x00", "x\x00y", "\xff\xfe\x80", "\u00a7cred", "\u00e9", "\ufeffx", "\"quoted\"", "a\\b", "\u00a0x\u00a0", "x\u2028", "0"}
+var textNames = []string{"leading-space", "trailing-space", "spaces-around", "trailing-lf", "trailing-crlf", "tabs-around", "lone-lf", "lone-space", "leading-slash", "two-slashes", "lone-slash", "mixed-case", "inner-space-run",
+	"trailing-nul", "lone-nul", "inner-nul", "invalid-utf8", "section-sign-code", "non-ascii", "leading-bom", "quoted", "backslash", "nbsp-around", "trailing-line-separator", "digit"}
+
+var commands = append([]string{"", "x", "list all", string(payload("ascii", refrcon.MaxPayload))}, texts...)
+var responses = append([]string{"", "ok", "with\x00nul\xff", string(payload("nonutf8", refrcon.MaxPayload))}, texts...)
+
+// textShape names a command / response for class strings: the length shape for the history alphabet (as before),
+// the character class for the menu texts.
+func textShape(alpha []string, i int) string {
+	if i >= len(alpha)-len(texts) {
+		return textNames[i-(len(alpha)-len(texts))]
+	}
+	return lenShape(len(alpha[i]))
+}
 
 // ---------------------------------------------------------------------------------------------
 // case descriptor (replayable)
@@ -212,6 +272,8 @@ type Case struct {
 	PayloadKind string `json:"payload_kind,omitempty"`
 	PayloadLen  int    `json:"payload_len,omitempty"`
 	Chunk       int    `json:"chunk,omitempty"`
+	EOF         bool   `json:"eof_with_data,omitempty"` // reader device: the last buffered byte arrives together with io.EOF
+	Stutter     bool   `json:"stutter,omitempty"`       // reader device: every other Read returns (0, nil)
 
 	// concat: indices into the frame alphabet
 	Frames []int `json:"frames,omitempty"`
@@ -229,6 +291,37 @@ type Case struct {
 	Answers  []int `json:"answers,omitempty"` // adversary: idKind*2 + typeKind per step
 	LoginAns int   `json:"login_answer,omitempty"`
 	Types    []int `json:"types,omitempty"` // advclient frame types
+
+	// script-mem: a scripted login under ReqID first, then step i runs under request id IDs[i]
+	Login bool    `json:"login,omitempty"`
+	IDs   []int32 `json:"ids,omitempty"`
+
+	// login-long: passwords of PwLen bytes; Rel equal / diff (one byte at DiffPos differs) / shorter (one is the
+	// other without its last byte); Altered says which side holds the altered password
+	PwLen   int    `json:"pw_len,omitempty"`
+	Rel     string `json:"rel,omitempty"`
+	DiffPos int    `json:"diff_pos,omitempty"`
+	Altered string `json:"altered,omitempty"`
+
+	// login-hist / listener-hist: client password indices presented one after the other
+	Attempts []int `json:"attempts,omitempty"`
+}
+
+// reader configures the reading end of an in-memory connection from the case's device fields.
+func (c Case) reader(m *memConn) {
+	m.chunk, m.eof, m.stutter = c.Chunk, c.EOF, c.Stutter
+}
+
+// device names the reader device for class strings ("" for the plain / fragmenting reader, whose classes predate it).
+func (c Case) device() string {
+	s := ""
+	if c.EOF {
+		s += "/eof-with-data"
+	}
+	if c.Stutter {
+		s += "/stutter"
+	}
+	return s
 }
 
 func fail(class string, size int, c Case, format string, a ...any) {
@@ -292,8 +385,12 @@ func judgeFrame(c Case) {
 		return
 	}
 	sentinel := []byte{0xde, 0xad, 0xbe, 0xef, 0x01}
+	if c.EOF {
+		// the frame is the last thing in the stream: its final bytes arrive together with io.EOF
+		sentinel = nil
+	}
 	a2, b2 := duplex()
-	a2.chunk = c.Chunk
+	c.reader(a2)
 	b2.out.put(want)
 	b2.out.put(sentinel)
 	r := &mcnet.RCONConn{Conn: a2}
@@ -310,6 +407,7 @@ func judgeFrame(c Case) {
 	if c.Chunk > 0 {
 		frag = "fragmented"
 	}
+	frag += c.device()
 	switch {
 	case rerr != nil:
 		fail("frame/ReadPacket/error-on-valid-frame/"+shape+"/"+frag, size, c, "ReadPacket of %s returned %v", clip(want), rerr)
@@ -321,6 +419,29 @@ func judgeFrame(c Case) {
 		fail("frame/ReadPacket/wrong-payload/"+shape+"/"+frag, size, c, "ReadPacket payload %s (%d bytes), written %s (%d bytes)", clip([]byte(p)), len(p), clip(pl), len(pl))
 	case a2.in.unread() != len(sentinel):
 		fail("frame/ReadPacket/not-self-delimiting/"+shape+"/"+frag, size, c, "after one ReadPacket %d bytes are unread, expected the %d sentinel bytes", a2.in.unread(), len(sentinel))
+	}
+}
+
+// judgeFrameWrite is the write half of judgeFrame alone, for the sweep over every payload length with ids and
+// types the read sweep does not repeat.
+func judgeFrameWrite(c Case) {
+	pl := payload(c.PayloadKind, c.PayloadLen)
+	shape := c.PayloadKind + "-" + lenShape(c.PayloadLen)
+	want := refrcon.Frame(c.ID, c.Type, pl)
+	a, b := duplex()
+	w := &mcnet.RCONConn{Conn: a}
+	var werr error
+	if guard("frame/WritePacket", c.PayloadLen, c, func() { werr = w.WritePacket(c.ID, c.Type, string(pl)) }) {
+		return
+	}
+	rep.Eval(1)
+	got := b.in.take()
+	if c.PayloadLen > refrcon.MaxPayload {
+		rep.Unspec(1)
+	} else if werr != nil {
+		fail("frame/WritePacket/error/"+shape, c.PayloadLen, c, "WritePacket(%d,%d,%d-byte %s payload) returned %v", c.ID, c.Type, c.PayloadLen, c.PayloadKind, werr)
+	} else if !bytes.Equal(got, want) {
+		fail("frame/WritePacket/bytes-differ-from-layout/"+shape+"/"+idShape(c.ID), c.PayloadLen, c, "WritePacket(%d,%d,%d-byte %s payload) wrote %s, reference layout is %s", c.ID, c.Type, c.PayloadLen, c.PayloadKind, clip(got), clip(want))
 	}
 }
 
@@ -353,7 +474,7 @@ func judgeConcat(c Case) {
 		want = append(want, refrcon.Frame(f.id, f.typ, f.pl)...)
 	}
 	// write side
-	if c.Chunk == 0 {
+	if c.Chunk == 0 && !c.EOF && !c.Stutter {
 		a, b := duplex()
 		w := &mcnet.RCONConn{Conn: a}
 		bad := false
@@ -381,10 +502,11 @@ func judgeConcat(c Case) {
 	}
 	// read side
 	a, b := duplex()
-	a.chunk = c.Chunk
+	c.reader(a)
 	b.out.put(want)
 	r := &mcnet.RCONConn{Conn: a}
 	consumed := 0
+	held := make([]string, 0, len(c.Frames)) // every payload handed out so far; none may change afterwards
 	for k, fi := range c.Frames {
 		f := frameAlpha[fi]
 		var (
@@ -401,12 +523,12 @@ func judgeConcat(c Case) {
 			pos = "later"
 		}
 		if err != nil {
-			fail("concat/ReadPacket/error-on-valid-stream/"+pos, size, c, "ReadPacket #%d returned %v", k, err)
+			fail("concat/ReadPacket/error-on-valid-stream/"+pos+c.device(), size, c, "ReadPacket #%d returned %v", k, err)
 			rep.Eval(1)
 			return
 		}
 		if id != f.id || typ != f.typ || p != string(f.pl) {
-			fail("concat/ReadPacket/wrong-frame/"+pos, size, c, "ReadPacket #%d = (%d,%d,%s), written (%d,%d,%s)", k, id, typ, clip([]byte(p)), f.id, f.typ, clip(f.pl))
+			fail("concat/ReadPacket/wrong-frame/"+pos+c.device(), size, c, "ReadPacket #%d = (%d,%d,%s), written (%d,%d,%s)", k, id, typ, clip([]byte(p)), f.id, f.typ, clip(f.pl))
 			rep.Eval(1)
 			return
 		}
@@ -415,8 +537,15 @@ func judgeConcat(c Case) {
 			rep.Eval(1)
 			return
 		}
+		held = append(held, p)
 	}
 	rep.Eval(1)
+	for k, h := range held {
+		if h != string(frameAlpha[c.Frames[k]].pl) {
+			fail("concat/ReadPacket/earlier-payload-changed-by-later-read", size, c, "the payload returned for frame #%d reads %s after the later frames were read; it was %s", k, clip([]byte(h)), clip(frameAlpha[c.Frames[k]].pl))
+			return
+		}
+	}
 	// one more read on the exhausted stream: nothing is specified beyond "no frame is there"; must not panic
 	guard("concat/ReadPacket-at-end", size, c, func() { r.ReadPacket() })
 }
@@ -631,34 +760,40 @@ func pwRel(i, j int) string {
 		return "case-differs"
 	case strings.HasPrefix(a, b) || strings.HasPrefix(b, a):
 		return "prefix"
+	case strings.HasSuffix(a, b) || strings.HasSuffix(b, a):
+		return "suffix"
+	case strings.TrimSpace(a) == strings.TrimSpace(b):
+		return "blank-trimmed-equal"
+	case strings.ToValidUTF8(a, "\ufffd") == strings.ToValidUTF8(b, "\ufffd"):
+		return "equal-after-utf8-repair"
 	}
 	return "different"
 }
 
 func judgeLoginTCP(c Case) {
-	res := runTCP(passwords[c.ClientPw], passwords[c.ServerPw], pick(commands, c.Cmds), pick(responses, c.Resps))
+	cpw, spw, rel, eqName := pwOf(c)
+	res := runTCP(cpw, spw, pick(commands, c.Cmds), pick(responses, c.Resps))
 	if res.harness != nil {
 		tcpTrouble(c, res.harness)
 		return
 	}
 	rep.Eval(1)
-	size := len(c.Cmds)*10 + c.ClientPw + c.ServerPw
-	rel := pwRel(c.ClientPw, c.ServerPw)
-	if c.ClientPw == c.ServerPw {
+	size := len(c.Cmds)*10 + c.ClientPw + c.ServerPw + c.PwLen
+	if cpw == spw {
 		if res.clientLoginErr != nil {
-			fail("login/tcp/DialRCON/error-with-equal-passwords/"+pwNames[c.ClientPw], size, c, "DialRCON with the server's password failed: %v", res.clientLoginErr)
+			fail("login/tcp/DialRCON/error-with-equal-passwords/"+eqName, size, c, "DialRCON with the server's password failed: %v", res.clientLoginErr)
 			return
 		}
 		if res.serverLoginErr != nil {
-			fail("login/tcp/AcceptLogin/error-with-equal-passwords/"+pwNames[c.ClientPw], size, c, "AcceptLogin with the client's password failed: %v", res.serverLoginErr)
+			fail("login/tcp/AcceptLogin/error-with-equal-passwords/"+eqName, size, c, "AcceptLogin with the client's password failed: %v", res.serverLoginErr)
 			return
 		}
 	} else {
 		if res.clientLoginErr == nil {
-			fail("login/tcp/DialRCON/no-error-with-wrong-password/"+rel, size, c, "DialRCON(%q) succeeded against server password %q", clipS(passwords[c.ClientPw]), clipS(passwords[c.ServerPw]))
+			fail("login/tcp/DialRCON/no-error-with-wrong-password/"+rel, size, c, "DialRCON(%q) succeeded against server password %q", clipS(cpw), clipS(spw))
 		}
 		if res.serverLoginErr == nil {
-			fail("login/tcp/AcceptLogin/no-error-with-wrong-password/"+rel, size, c, "AcceptLogin(%q) returned nil for client password %q", clipS(passwords[c.ServerPw]), clipS(passwords[c.ClientPw]))
+			fail("login/tcp/AcceptLogin/no-error-with-wrong-password/"+rel, size, c, "AcceptLogin(%q) returned nil for client password %q", clipS(spw), clipS(cpw))
 		}
 		return
 	}
@@ -707,37 +842,58 @@ func clipS(s string) string {
 
 func judgeLoginMem(c Case) {
 	srvEnd, peer := duplex()
+	c.reader(srvEnd)
 	srv := &mcnet.RCONConn{Conn: srvEnd}
-	peer.out.put(refrcon.Frame(c.ReqID, refrcon.TypeLogin, []byte(passwords[c.ClientPw])))
+	cpw, spw, rel, eqName := pwOf(c)
+	loginAttempt("login/mem", c.ClientPw+c.ServerPw+c.PwLen, c, srv, peer, c.ReqID, cpw, spw, rel, eqName)
+}
+
+// pwOf gives the two passwords of a login case with the names used in class strings: from the password alphabet,
+// or (PwLen > 0) a pair of long passwords built by longPasswords.
+func pwOf(c Case) (cpw, spw, rel, eqName string) {
+	if c.PwLen > 0 {
+		return longPasswords(c)
+	}
+	return passwords[c.ClientPw], passwords[c.ServerPw], pwRel(c.ClientPw, c.ServerPw), pwNames[c.ClientPw]
+}
+
+// loginAttempt lets a refrcon-scripted client present cpw under request id reqID to srv.AcceptLogin(spw) and judges
+// the verdict and the reply. It returns false when the attempt failed the oracle.
+func loginAttempt(prefix string, size int, c Case, srv *mcnet.RCONConn, peer *memConn, reqID int32, cpw, spw, rel, eqName string) bool {
+	peer.out.put(refrcon.Frame(reqID, refrcon.TypeLogin, []byte(cpw)))
 	var err error
-	size := c.ClientPw + c.ServerPw
-	if guard("login/mem/AcceptLogin", size, c, func() { err = srv.AcceptLogin(passwords[c.ServerPw]) }) {
-		return
+	if guard(prefix+"/AcceptLogin", size, c, func() { err = srv.AcceptLogin(spw) }) {
+		return false
 	}
 	rep.Eval(1)
 	out := peer.in.take()
 	ps, perr := refrcon.ParseAll(out)
-	rel := pwRel(c.ClientPw, c.ServerPw)
-	if c.ClientPw == c.ServerPw {
+	dev := c.device()
+	if cpw == spw {
 		switch {
 		case err != nil:
-			fail("login/mem/AcceptLogin/error-with-equal-passwords/"+pwNames[c.ClientPw], size, c, "AcceptLogin failed with equal passwords: %v", err)
+			fail(prefix+"/AcceptLogin/error-with-equal-passwords/"+eqName+dev, size, c, "AcceptLogin failed with equal passwords: %v", err)
 		case perr != nil || len(ps) != 1:
-			fail("login/mem/AcceptLogin/response-not-one-frame", size, c, "login response bytes %s: %v", clip(out), perr)
-		case ps[0].ID != c.ReqID:
-			fail("login/mem/AcceptLogin/success-not-echoing-request-id/"+idShape(c.ReqID), size, c, "login response id %d, request id %d", ps[0].ID, c.ReqID)
+			fail(prefix+"/AcceptLogin/response-not-one-frame", size, c, "login response bytes %s: %v", clip(out), perr)
+		case ps[0].ID != reqID:
+			fail(prefix+"/AcceptLogin/success-not-echoing-request-id/"+idShape(reqID), size, c, "login response id %d, request id %d", ps[0].ID, reqID)
+		default:
+			return true
 		}
 	} else {
 		switch {
 		case err == nil:
-			fail("login/mem/AcceptLogin/no-error-with-wrong-password/"+rel, size, c, "AcceptLogin returned nil for a wrong password")
+			fail(prefix+"/AcceptLogin/no-error-with-wrong-password/"+rel, size, c, "AcceptLogin returned nil for a wrong password (client %q, server %q)", clipS(cpw), clipS(spw))
 		case perr != nil || len(ps) != 1:
 			// the server reported the rejection locally; what it sends is the login-failure signal or nothing legible
-			fail("login/mem/AcceptLogin/rejection-not-one-frame", size, c, "rejection bytes %s: %v", clip(out), perr)
+			fail(prefix+"/AcceptLogin/rejection-not-one-frame", size, c, "rejection bytes %s: %v", clip(out), perr)
 		case ps[0].ID != -1:
-			fail("login/mem/AcceptLogin/rejection-not-signalled-with-minus-one", size, c, "rejection response id %d, expected -1", ps[0].ID)
+			fail(prefix+"/AcceptLogin/rejection-not-signalled-with-minus-one", size, c, "rejection response id %d, expected -1", ps[0].ID)
+		default:
+			return true
 		}
 	}
+	return false
 }
 
 // ---------------------------------------------------------------------------------------------
@@ -745,22 +901,54 @@ func judgeLoginMem(c Case) {
 
 func judgeScriptMem(c Case) {
 	ce, se := duplex()
+	c.reader(ce)
+	c.reader(se)
 	cli := &mcnet.RCONConn{Conn: ce, ReqID: c.ReqID}
 	srv := &mcnet.RCONConn{Conn: se}
 	size := len(c.Cmds)
+	dev := c.device()
 	rep.Eval(1)
+	if c.Login {
+		// a scripted client logs in under c.ReqID with the server's password before the commands start
+		ce.out.put(refrcon.Frame(c.ReqID, refrcon.TypeLogin, []byte(passwords[c.ServerPw])))
+		var err error
+		if guard("script/mem/AcceptLogin", size, c, func() { err = srv.AcceptLogin(passwords[c.ServerPw]) }) {
+			return
+		}
+		out := ce.in.take()
+		ps, perr := refrcon.ParseAll(out)
+		if err != nil {
+			fail("script/mem/AcceptLogin/error-with-equal-passwords"+dev, size, c, "AcceptLogin failed with equal passwords: %v", err)
+			return
+		}
+		if perr != nil || len(ps) != 1 || ps[0].ID != c.ReqID {
+			fail("script/mem/AcceptLogin/success-not-echoing-request-id"+dev, size, c, "login response bytes %s (%v), request id %d", clip(out), perr, c.ReqID)
+			return
+		}
+	}
+	var heldCmds, heldResps []string
 	for i := range c.Cmds {
 		step := "first"
 		if i > 0 {
 			step = "later"
 		}
+		idNote := idShape(c.ReqID)
+		if c.IDs != nil {
+			// the client moves on to another request id for this command
+			cli.ReqID = c.IDs[i]
+			idNote = "id-unchanged"
+			if (i == 0 && c.Login && c.IDs[0] != c.ReqID) || (i > 0 && c.IDs[i] != c.IDs[i-1]) {
+				idNote = "id-changed"
+			}
+		}
 		cmd, resp := commands[c.Cmds[i]], responses[c.Resps[i]]
+		cmdShape, respShape := textShape(commands, c.Cmds[i]), textShape(responses, c.Resps[i])
 		var err error
 		if guard("script/mem/Cmd", size, c, func() { err = cli.Cmd(cmd) }) {
 			return
 		}
 		if err != nil {
-			fail("script/mem/Cmd/error/"+lenShape(len(cmd)), size, c, "Cmd #%d returned %v", i, err)
+			fail("script/mem/Cmd/error/"+cmdShape, size, c, "Cmd #%d returned %v", i, err)
 			return
 		}
 		var got string
@@ -768,33 +956,48 @@ func judgeScriptMem(c Case) {
 			return
 		}
 		if err != nil {
-			fail("script/mem/AcceptCmd/error-on-command/"+step, size, c, "AcceptCmd #%d returned %v", i, err)
+			fail("script/mem/AcceptCmd/error-on-command/"+step+dev, size, c, "AcceptCmd #%d returned %v", i, err)
 			return
 		}
 		if got != cmd {
-			fail("script/mem/AcceptCmd/command-not-verbatim/"+lenShape(len(cmd)), size, c, "command #%d arrived as %s, sent %s", i, clip([]byte(got)), clip([]byte(cmd)))
+			fail("script/mem/AcceptCmd/command-not-verbatim/"+cmdShape, size, c, "command #%d arrived as %s, sent %s", i, clip([]byte(got)), clip([]byte(cmd)))
 			return
 		}
+		heldCmds = append(heldCmds, got)
 		if guard("script/mem/RespCmd", size, c, func() { err = srv.RespCmd(resp) }) {
 			return
 		}
 		if err != nil {
-			fail("script/mem/RespCmd/error/"+lenShape(len(resp)), size, c, "RespCmd #%d returned %v", i, err)
+			fail("script/mem/RespCmd/error/"+respShape, size, c, "RespCmd #%d returned %v", i, err)
 			return
 		}
 		if guard("script/mem/Resp", size, c, func() { got, err = cli.Resp() }) {
 			return
 		}
 		if err != nil {
-			fail("script/mem/Resp/error-on-matching-response/"+step+"/"+idShape(c.ReqID), size, c, "Resp #%d returned %v for the server's answer to request id %d", i, err, c.ReqID)
+			fail("script/mem/Resp/error-on-matching-response/"+step+"/"+idNote+dev, size, c, "Resp #%d returned %v for the server's answer to request id %d", i, err, cli.ReqID)
 			return
 		}
 		if got != resp {
-			fail("script/mem/Resp/response-not-verbatim/"+lenShape(len(resp)), size, c, "response #%d arrived as %s, sent %s", i, clip([]byte(got)), clip([]byte(resp)))
+			fail("script/mem/Resp/response-not-verbatim/"+respShape, size, c, "response #%d arrived as %s, sent %s", i, clip([]byte(got)), clip([]byte(resp)))
 			return
 		}
+		heldResps = append(heldResps, got)
 		if ce.in.unread() != 0 || se.in.unread() != 0 {
 			fail("script/mem/stream/leftover-bytes/"+step, size, c, "after step #%d %d/%d bytes are unread", i, ce.in.unread(), se.in.unread())
+			return
+		}
+	}
+	// what was handed out earlier must still read the same after the later steps
+	for i := range heldCmds {
+		if heldCmds[i] != commands[c.Cmds[i]] {
+			fail("script/mem/AcceptCmd/earlier-command-changed-by-later-read", size, c, "the command returned by AcceptCmd #%d reads %s after the later steps; sent %s", i, clip([]byte(heldCmds[i])), clip([]byte(commands[c.Cmds[i]])))
+			return
+		}
+	}
+	for i := range heldResps {
+		if heldResps[i] != responses[c.Resps[i]] {
+			fail("script/mem/Resp/earlier-response-changed-by-later-read", size, c, "the response returned by Resp #%d reads %s after the later steps; sent %s", i, clip([]byte(heldResps[i])), clip([]byte(responses[c.Resps[i]])))
 			return
 		}
 	}
@@ -803,7 +1006,12 @@ func judgeScriptMem(c Case) {
 // ---------------------------------------------------------------------------------------------
 // part: adversary (scripted peer answers the real client)
 
-var idKinds = []string{"right-id", "id+1", "minus-one", "zero"}
+// answer ids: the four original kinds, then three that a partial comparison would let through (the predecessor, an
+// id equal in the low 16 bits, the same magnitude bits under the other sign)
+var idKinds = []string{"right-id", "id+1", "minus-one", "zero", "id-1", "low16-equal", "sign-flipped"}
+
+// nAns answers per step: idKind*2 + typeKind (type 0 / type 2)
+var nAns = len(idKinds) * 2
 
 func answerID(req int32, kind int) int32 {
 	switch kind {
@@ -813,6 +1021,12 @@ func answerID(req int32, kind int) int32 {
 		return req + 1 // wraps at MaxInt32, still != req
 	case 2:
 		return -1
+	case 4:
+		return req - 1 // wraps at MinInt32, still != req
+	case 5:
+		return req ^ 0x10000
+	case 6:
+		return req ^ math.MinInt32
 	}
 	return 0
 }
@@ -1062,6 +1276,14 @@ func judge(c Case) {
 		}
 	case "advclient":
 		judgeAdvClient(c)
+	case "frame-write":
+		judgeFrameWrite(c)
+	case "login-hist":
+		judgeLoginHist(c)
+	case "listener-hist":
+		if atomic.LoadInt32(&tcpAborted) == 0 {
+			judgeListenerHist(c)
+		}
 	default:
 		engine.HarnessError("unknown part %q", c.Part)
 	}
@@ -1090,7 +1312,7 @@ func runAll(cases []Case) {
 
 func main() {
 	rep = engine.NewReport("C16")
-	rep.Rule = "nested-loop products, one case per tuple: frame=(id,type,payload kind,length,fragment size); concat=index sequence over a 6-frame alphabet (+ a 20-frame chain); declared=(length field, bytes available); login=(client password, server password) ordered pairs; script=(command,response) sequences; adversary=(command, answer id kind x type) sequences. Enumeration is injective, so distinct = cases; all are non-trivial (each reaches ReadPacket/WritePacket or a full session)"
+	rep.Rule = "nested-loop products, one case per tuple: frame=(id,type,payload kind,length,reader device) incl. every payload length 0..limit+1; concat=index sequence over a 6-frame alphabet (+ a 20-frame chain); declared=(length field, bytes available); login=(client password, server password) ordered pairs; script=(command,response) sequences; adversary=(command, answer id kind x type) sequences; long passwords=(length, relation, position, side); login-hist / listener-hist=password sequences on one connection / one listener; request-id histories=(login id, id per command) sequences; verbatim=ordered pairs of menu texts. Enumeration is injective, so distinct = cases; all are non-trivial (each reaches ReadPacket/WritePacket or a full session)"
 	initAlpha()
 	if err := refrcon.SelfTest(); err != nil {
 		engine.HarnessError("refrcon self-test: %v", err)
@@ -1132,16 +1354,49 @@ func main() {
 		}
 		chunks = []int{0, 1, 3, 4, 5, 13}
 	}
+	kinds := []string{"ascii", "nul", "nonutf8", "space"}
+	// reader devices: whole reads and fragments as before, then the same with the last bytes arriving together
+	// with io.EOF (the frame ends the stream), and a reader that answers (0, nil) every other call
+	type device struct {
+		chunk        int
+		eof, stutter bool
+	}
+	var devices []device
+	for _, ch := range chunks {
+		devices = append(devices, device{chunk: ch})
+	}
+	for _, ch := range chunks {
+		devices = append(devices, device{chunk: ch, eof: true})
+	}
+	devices = append(devices, device{stutter: true}, device{chunk: 3, eof: true, stutter: true})
+	var devNames []string
+	for _, d := range devices {
+		devNames = append(devNames, fmt.Sprintf("chunk=%d eof-with-data=%v stutter=%v", d.chunk, d.eof, d.stutter))
+	}
 	var cases []Case
+	// flush judges the cases collected so far and forgets them (the thorough tier would otherwise hold a few million
+	// descriptors at once)
+	var total, trans int64
+	tally := func(cs []Case) {
+		total += int64(len(cs))
+		for _, c := range cs {
+			trans += int64(1 + len(c.Frames) + 2*len(c.Cmds) + len(c.Attempts))
+		}
+	}
+	flush := func() {
+		runAll(cases)
+		tally(cases)
+		cases = cases[:0]
+	}
 	for _, id := range ids {
 		for _, t := range types {
 			for _, n := range lens {
-				for _, k := range []string{"ascii", "nul", "nonutf8"} {
+				for _, k := range kinds {
 					if n == 0 && k != "ascii" {
 						continue
 					}
-					for _, ch := range chunks {
-						cases = append(cases, Case{Part: "frame", ID: id, Type: t, PayloadKind: k, PayloadLen: n, Chunk: ch})
+					for _, d := range devices {
+						cases = append(cases, Case{Part: "frame", ID: id, Type: t, PayloadKind: k, PayloadLen: n, Chunk: d.chunk, EOF: d.eof, Stutter: d.stutter})
 					}
 				}
 			}
@@ -1149,6 +1404,39 @@ func main() {
 	}
 	nFrame := len(cases)
 	rep.Sample(cases[7])
+	flush()
+
+	// ---- frame, every payload length 0..limit+1 (a size class, a small-frame fast path, a buffer growth step may sit
+	// anywhere): write + read under four devices for two (id, type) pairs, write alone for the other ids and types
+	sweepDevices := []device{{}, {eof: true}, {chunk: 7}, {chunk: 1, eof: true}}
+	sweepPairs := [][2]int32{{1, 2}, {-1, 0}}
+	sweepKinds := []string{"ascii", "nul"}
+	if th {
+		sweepDevices = devices
+		sweepKinds = kinds
+	}
+	nSweep, nSweepWrite := 0, 0
+	for n := 0; n <= refrcon.MaxPayload+1; n++ {
+		for _, k := range sweepKinds {
+			if n == 0 && k != "ascii" {
+				continue
+			}
+			for _, it := range sweepPairs {
+				for _, d := range sweepDevices {
+					cases = append(cases, Case{Part: "frame", ID: it[0], Type: it[1], PayloadKind: k, PayloadLen: n, Chunk: d.chunk, EOF: d.eof, Stutter: d.stutter})
+					nSweep++
+				}
+			}
+		}
+		for _, id := range ids {
+			for _, t := range types {
+				cases = append(cases, Case{Part: "frame-write", ID: id, Type: t, PayloadKind: "nonutf8", PayloadLen: n})
+				nSweepWrite++
+			}
+		}
+	}
+	rep.Sample(Case{Part: "frame", ID: 1, Type: 2, PayloadKind: "ascii", PayloadLen: 1012, EOF: true})
+	flush()
 
 	// ---- concat
 	maxSeq := 4
@@ -1156,9 +1444,10 @@ func main() {
 		maxSeq = 5
 	}
 	nConcat := 0
+	concatDevices := []device{{}, {chunk: 1}, {chunk: 5}, {eof: true}, {chunk: 5, eof: true}, {chunk: 3, stutter: true}}
 	seqs(len(frameAlpha), maxSeq, func(s []int) {
-		for _, ch := range []int{0, 1, 5} {
-			cases = append(cases, Case{Part: "concat", Frames: s, Chunk: ch})
+		for _, d := range concatDevices {
+			cases = append(cases, Case{Part: "concat", Frames: s, Chunk: d.chunk, EOF: d.eof, Stutter: d.stutter})
 			nConcat++
 		}
 	})
@@ -1166,11 +1455,12 @@ func main() {
 	for i := range chain {
 		chain[i] = (i*5 + 1) % len(frameAlpha)
 	}
-	for _, ch := range []int{0, 1, 5} {
-		cases = append(cases, Case{Part: "concat", Frames: chain, Chunk: ch})
+	for _, d := range concatDevices {
+		cases = append(cases, Case{Part: "concat", Frames: chain, Chunk: d.chunk, EOF: d.eof, Stutter: d.stutter})
 		nConcat++
 	}
 	rep.Sample(Case{Part: "concat", Frames: []int{5, 0, 3}})
+	flush()
 
 	// ---- declared lengths (small ones here; large ones after the small ones were judged)
 	declared := []int32{-1, 0, 1, 2, 3, 4, 5, 6, 7, 8, 9, 10, 11, 4095, 4096, 4097, 4098, -10, -4096, math.MinInt32, math.MinInt32 + 10, 0x0a000000}
@@ -1221,6 +1511,42 @@ func main() {
 			}
 		}
 	}
+	// long passwords: every length 1..limit (thorough: every differing position for the boundary lengths)
+	var allLens []int
+	for n := 1; n <= refrcon.MaxPayload; n++ {
+		allLens = append(allLens, n)
+	}
+	long := longCases("login-mem", allLens, false)
+	if th {
+		long = append(long, longCases("login-mem", longBoundaryLens, true)...)
+	}
+	cases = append(cases, long...)
+	nLoginLong := len(long)
+	rep.Sample(Case{Part: "login-mem", PwLen: 300, Rel: "diff", DiffPos: 299, Altered: "client", ReqID: 5})
+	// a few of them through the (n>0, io.EOF) reader
+	for _, n := range []int{1, 255, 256, 257, refrcon.MaxPayload} {
+		for _, rel := range []string{"equal", "shorter"} {
+			cases = append(cases, Case{Part: "login-mem", PwLen: n, Rel: rel, Altered: "client", ReqID: 5, EOF: true})
+			nLoginLong++
+		}
+	}
+	// login histories on one connection: every sequence of <= H attempts over {the server's password, a longer one, the empty one}
+	histLen := 4
+	if th {
+		histLen = 6
+	}
+	nLoginHist := 0
+	for _, alpha := range [][]int{{1, 3, 0}, {3, 1, 17}} { // alpha[0] is the server's password
+		seqs(len(alpha), histLen, func(s []int) {
+			at := make([]int, len(s))
+			for i, v := range s {
+				at[i] = alpha[v]
+			}
+			cases = append(cases, Case{Part: "login-hist", ServerPw: alpha[0], Attempts: at})
+			nLoginHist++
+		})
+	}
+	rep.Sample(Case{Part: "login-hist", ServerPw: 1, Attempts: []int{3, 1}})
 	nAdvClient := 0
 	for i := range passwords {
 		for j := range passwords {
@@ -1243,10 +1569,10 @@ func main() {
 		steps = 4
 	}
 	nScriptMem := 0
-	seqs(len(commands)*len(responses), steps, func(s []int) {
+	seqs(histCmds*histResps, steps, func(s []int) {
 		cm, rs := make([]int, len(s)), make([]int, len(s))
 		for i, v := range s {
-			cm[i], rs[i] = v/len(responses), v%len(responses)
+			cm[i], rs[i] = v/histResps, v%histResps
 		}
 		rids := []int32{7}
 		if len(s) <= 2 {
@@ -1256,8 +1582,49 @@ func main() {
 			cases = append(cases, Case{Part: "script-mem", ReqID: r, Cmds: cm, Resps: rs})
 			nScriptMem++
 		}
+		if len(s) <= 2 {
+			// the same scripts over the (n>0, io.EOF) reader and the stuttering reader
+			cases = append(cases, Case{Part: "script-mem", ReqID: 7, Cmds: cm, Resps: rs, EOF: true}, Case{Part: "script-mem", ReqID: 7, Cmds: cm, Resps: rs, Chunk: 3, Stutter: true})
+			nScriptMem += 2
+		}
 	})
 	rep.Sample(Case{Part: "script-mem", ReqID: 7, Cmds: []int{2, 0}, Resps: []int{1, 3}})
+
+	// ---- verbatim: every ordered pair of menu texts as a two-step script (text i as command then as response,
+	// text j the other way round), so each text also follows and precedes every other on one connection
+	nVerbatim := 0
+	for i := range texts {
+		for j := range texts {
+			ci, cj := histCmds+i, histCmds+j
+			ri, rj := histResps+i, histResps+j
+			cases = append(cases, Case{Part: "script-mem", ReqID: 7, Cmds: []int{ci, cj}, Resps: []int{rj, ri}})
+			nVerbatim++
+		}
+	}
+	rep.Sample(Case{Part: "script-mem", ReqID: 7, Cmds: []int{histCmds + 8, histCmds}, Resps: []int{histResps, histResps + 8}})
+
+	// ---- request-id histories: a scripted login under id L, then every sequence of <= K commands whose request ids
+	// are drawn from a 4-id menu (the client may move to a new id for every command; the server must answer each
+	// command under that command's id)
+	idMenu := []int32{0, 7, 8, math.MinInt32}
+	idSteps := 3
+	if th {
+		idSteps = 4
+	}
+	nIDHist := 0
+	for _, login := range []int32{0, 7} {
+		seqs(len(idMenu), idSteps, func(s []int) {
+			ids := make([]int32, len(s))
+			cm, rs := make([]int, len(s)), make([]int, len(s))
+			for i, v := range s {
+				ids[i] = idMenu[v]
+				cm[i], rs[i] = 1+i%2, 1+(i+1)%2
+			}
+			cases = append(cases, Case{Part: "script-mem", Login: true, ServerPw: 3, ReqID: login, IDs: ids, Cmds: cm, Resps: rs})
+			nIDHist++
+		})
+	}
+	rep.Sample(Case{Part: "script-mem", Login: true, ServerPw: 3, ReqID: 7, IDs: []int32{8}, Cmds: []int{1}, Resps: []int{2}})
 
 	// ---- adversary in memory: (command, answer) sequences
 	nAdvMem := 0
@@ -1267,13 +1634,24 @@ func main() {
 	}
 	advSteps := 3
 	if th {
-		advSteps = 4
 		advCmds = []int{1, 3}
+		// thorough: the 4-step scripts over the four original answer-id kinds (the 7-kind alphabet stays at <= 3 steps)
+		seqs(len(advCmds)*8, 4, func(s []int) {
+			if len(s) < 4 {
+				return
+			}
+			cm, an := make([]int, len(s)), make([]int, len(s))
+			for i, v := range s {
+				cm[i], an[i] = advCmds[v/8], v%8
+			}
+			cases = append(cases, Case{Part: "adversary-mem", ReqID: 7, Cmds: cm, Answers: an})
+			nAdvMem++
+		})
 	}
-	seqs(len(advCmds)*8, advSteps, func(s []int) {
+	seqs(len(advCmds)*nAns, advSteps, func(s []int) {
 		cm, an := make([]int, len(s)), make([]int, len(s))
 		for i, v := range s {
-			cm[i], an[i] = advCmds[v/8], v%8
+			cm[i], an[i] = advCmds[v/nAns], v%nAns
 		}
 		rids := []int32{7}
 		if len(s) == 1 {
@@ -1286,8 +1664,7 @@ func main() {
 	})
 	rep.Sample(Case{Part: "adversary-mem", ReqID: 7, Cmds: []int{1}, Answers: []int{2}})
 
-	runAll(cases)
-	nMem := len(cases)
+	flush()
 
 	// large declared lengths: only when the implementation showed an upper bound on the moderate ones,
 	// so that a tree without the bound is never asked to allocate gigabytes (it already failed above)
@@ -1302,6 +1679,7 @@ func main() {
 			judge(c) // sequentially: at most one large allocation alive in a broken tree
 		}
 		nDecl += len(big)
+		tally(big)
 	} else {
 		rep.Count("declared_lengths_guarded_not_executed", int64(len(big)))
 		rep.Cap("declared lengths >= 16 MiB not executed: the implementation accepted a length above the limit (allocation guard)")
@@ -1317,13 +1695,32 @@ func main() {
 		}
 	}
 	tcpSteps := 3
-	seqs(len(commands)*len(responses), tcpSteps, func(s []int) {
+	seqs(histCmds*histResps, tcpSteps, func(s []int) {
 		cm, rs := make([]int, len(s)), make([]int, len(s))
 		for i, v := range s {
-			cm[i], rs[i] = v/len(responses), v%len(responses)
+			cm[i], rs[i] = v/histResps, v%histResps
 		}
 		tcp = append(tcp, Case{Part: "script-tcp", ClientPw: 3, ServerPw: 3, Cmds: cm, Resps: rs})
 		nScriptTCP++
+	})
+	// every menu text as the command and as the response of a one-step session after a real login
+	for i := range texts {
+		tcp = append(tcp, Case{Part: "script-tcp", ClientPw: 3, ServerPw: 3, Cmds: []int{histCmds + i}, Resps: []int{histResps + (i+1)%len(texts)}})
+		nScriptTCP++
+	}
+	// long passwords through the real DialRCON
+	longTCP := longCases("login-tcp", longBoundaryLens, false)
+	tcp = append(tcp, longTCP...)
+	nLoginTCP += len(longTCP)
+	// sessions one after the other on one listener: every sequence of <= 3 over {right, wrong} passwords
+	nListenerHist := 0
+	seqs(2, 3, func(s []int) {
+		at := make([]int, len(s))
+		for i, v := range s {
+			at[i] = []int{3, 1}[v]
+		}
+		tcp = append(tcp, Case{Part: "listener-hist", ServerPw: 3, Attempts: at})
+		nListenerHist++
 	})
 	for la := 0; la < 8; la++ {
 		for _, pw := range []int{0, 3, 5} {
@@ -1331,7 +1728,7 @@ func main() {
 			nAdvTCP++
 		}
 		if la/2 == 0 { // login answered under the right id: go on with one command and every answer kind
-			for a := 0; a < 8; a++ {
+			for a := 0; a < nAns; a++ {
 				for _, cmd := range []int{1, 3} {
 					tcp = append(tcp, Case{Part: "adversary-tcp", ClientPw: 3, LoginAns: la, Cmds: []int{cmd}, Answers: []int{a}})
 					nAdvTCP++
@@ -1346,17 +1743,19 @@ func main() {
 		ioDeadline = 3 * time.Second
 	}
 	runAll(tcp)
-
-	total := int64(nMem + len(tcp))
+	tally(tcp)
 	rep.NonTrivial(total)
 	rep.AddStates(total)
 	rep.AddTraces(rep.Evaluations)
-	var trans int64
-	for _, c := range append(cases, tcp...) {
-		trans += int64(1 + len(c.Frames) + 2*len(c.Cmds))
-	}
 	rep.AddTrans(trans)
 	rep.Count("frame_cases", int64(nFrame))
+	rep.Count("frame_every_length_cases", int64(nSweep))
+	rep.Count("frame_every_length_write_only_cases", int64(nSweepWrite))
+	rep.Count("login_long_password_cases", int64(nLoginLong))
+	rep.Count("login_history_one_connection_cases", int64(nLoginHist))
+	rep.Count("script_mem_verbatim_text_pairs", int64(nVerbatim))
+	rep.Count("script_mem_request_id_histories", int64(nIDHist))
+	rep.Count("listener_history_tcp_cases", int64(nListenerHist))
 	rep.Count("concat_cases", int64(nConcat))
 	rep.Count("declared_length_cases", int64(nDecl))
 	rep.Count("login_mem_cases", int64(nLoginMem))
@@ -1370,8 +1769,19 @@ func main() {
 	rep.Extra("max_script_steps_mem", steps)
 	rep.Extra("max_script_steps_tcp", tcpSteps)
 	rep.Extra("password_alphabet", pwNames)
+	rep.Extra("payload_kinds", kinds)
+	rep.Extra("payload_lengths_swept", fmt.Sprintf("every length 0..%d", refrcon.MaxPayload+1))
+	rep.Extra("reader_devices", devNames)
+	rep.Extra("verbatim_text_menu", textNames)
+	rep.Extra("long_password_lengths_mem", fmt.Sprintf("every length 1..%d x {equal, one byte differs at first/middle/last, last byte absent} x {client, server}", refrcon.MaxPayload))
+	rep.Extra("long_password_lengths_tcp", longBoundaryLens)
+	rep.Extra("login_history_max_attempts", histLen)
+	rep.Extra("request_id_history_menu", idMenu)
+	rep.Extra("request_id_history_max_steps", idSteps)
+	rep.Extra("adversary_answer_id_kinds", idKinds)
 	rep.Extra("size_limit_declared_length", refrcon.MaxLength)
 	rep.Assume("refrcon (Source RCON layout, declared length 10..4096) is trusted and pinned to the protocol documentation's example packet; DialRCON's request id (rand.Int31) is observed from the wire, never assumed; loopback TCP sessions use a 20 s I/O deadline that can only produce a harness error")
 	rep.Note("unspecified verdicts: payloads above the limit on the write side; truncated in-range frames; responses under the right id but a non-zero type; login answers that are neither the echoed id nor -1; right password / command under a wrong frame type")
+	rep.Note("reader devices only give answers the io.Reader contract permits (short reads, the last bytes together with io.EOF, (0, nil)); a complete frame delivered that way must read back like any other")
 	rep.Finish()
 }
